@@ -1111,6 +1111,11 @@ func (h *handler) handle(ctx context.Context, nextCid cid.Cid, sel ipld.Node, sy
 		if err != nil {
 			return 0, err
 		}
+		// The block hook is given the segment sync actions also when the sync
+		// is not done in segments; a failure it signals fails the sync.
+		if segSync.err != nil {
+			return 0, segSync.err
+		}
 		log.Debugw("Non-segmented sync completed", "syncedCount", syncedCount)
 		return syncedCount, nil
 	}
